@@ -1,6 +1,6 @@
 (** C16 — correspondence ([agree]: model output = implementation output) and the property's
     spec-side predicate evaluated on the implementation's outputs ([holds]). *)
-From V Require Import Base.Util Gql.Ast Writer.Wop C16.Model C16.Spec.
+From V Require Import Base.Util Gql.Ast Writer.Wop C16.Model C16.Spec C16.SpecLex.
 Local Open Scope N_scope.
 
 (** text given line by line (the harness prints multi-line texts this way) *)
@@ -257,12 +257,18 @@ Definition string_ok (x out : str) : bool :=
   | _ => false
   end.
 
+(** the printed text, lexed by the specification's lexer, is the token sequence of the document *)
+Definition lex_ok (out : str) (expected : list tok) : bool :=
+  match lex out with Some ts => list_eqb tok_eqb ts expected | None => false end.
+
 Definition holds (c : case) : bool :=
   match c with
   | CStr x out => string_ok x out
   | CWriter _ out js => template_ok out js
-  | CTs A _ out js re => template_ok_opt (print_tsdoc_ext A) out js && reparse_ok tsdoc_eq A re
-  | COp A _ out js re => template_ok_opt (print_opdoc A) out js && reparse_ok opdoc_eq A re
+  | CTs A _ out js re =>
+      template_ok_opt (print_tsdoc_ext A) out js && reparse_ok tsdoc_eq A re && lex_ok out (tokens_of_tsdoc A)
+  | COp A _ out js re =>
+      template_ok_opt (print_opdoc A) out js && reparse_ok opdoc_eq A re && lex_ok out (tokens_of_opdoc A)
   | CServer plugin A stripped _ out js re =>
       (* [ReSame] here: the printed text parses back to [stripped] *)
       template_ok out js
@@ -271,6 +277,7 @@ Definition holds (c : case) : bool :=
          | ReDiff B => tsdoc_eq (spec_server_schema plugin A) B
          | ReNone => false
          end
+      && lex_ok out (tokens_of_tsdoc (spec_server_schema plugin A))
   | CTemplate src v => option_eqb str_eqb (eval_template src) v
   | CModule plugin A text node_used v re =>
       if node_used then
